@@ -1,14 +1,69 @@
 #!/usr/bin/env python3
 """Generates /verif/MANIFEST.json from the table below (single source of truth for the interface)."""
 import json, subprocess, os
-HOOK_COMMITS = ["9361e31"]
+HOOK_COMMITS = ["9361e31", "621142d"]
+EXPL = " Exploration level: the property held on everything generated/enumerated in the run (counts, label histogram and samples are in the evidence file); absence of violations is not established."
+TRUST = "Trusted: harness model families well-formed by construction (DESIGN §3), oracles independent of the library (h* on atom tables cross-checked by brute force; reference models), proptest/serde; "
 CHECKS = {
- # id: (technique, level text, level note, design ref)
- "C01": ("property-based differential testing (proptest) of SequentialSolver against an independent exact DP/brute-force oracle, plus bounded-exhaustive enumeration of tiny models",
-         "Generated-input search: random well-formed models x all solver configurations plus an exhaustively enumerated tiny sub-space, each run compared with the exact optimum; non-termination detected by a proven poll budget. Exploration level: held on everything generated, absence not established.",
-         "Trusted: the harness model families are well-formed by construction (DESIGN §3) and the oracle (backward induction cross-checked by brute force).", "§7 C01"),
+ "C01": ("property-based differential testing (proptest) of SequentialSolver against an independent exact DP / brute-force oracle + bounded-exhaustive enumeration of tiny models",
+         "Random well-formed models (table-driven powerset family, bounded knapsack, set packing with dynamic order, common-subsequence with long arcs) x all solver configurations, plus every 3-variable/2-atom table (strided in the quick tier); each uninterrupted run compared with the exact optimum; non-termination detected by a proven poll budget, crashes by catch_unwind." + EXPL,
+         TRUST + "poll-budget bound (DESIGN §1).", "§7 C01"),
+ "C02": ("property-based testing with a validity-predicate oracle (independent replay of the reported decisions) over uninterrupted, cut-off and scheduled-parallel runs",
+         "Every reported solution is replayed through the atom tables (feasibility, one decision per variable, value = lb = Completion value, ub = value after uninterrupted runs) on sequential runs, on the sequential solver cut at every poll index, and on the parallel solver under owned schedules." + EXPL,
+         TRUST + "cooperative scheduler (DESIGN §6).", "§7 C02"),
+ "C03": ("schedule-owning property-based testing: cooperative scheduler over add-only hooks, random / PCT / systematically enumerated schedules, differential against h*; plus real-thread stress",
+         "ParallelSolver with 1..4 workers under a harness-owned schedule (critical sections, condvar parks, and optionally cutoff polls / cache / dominance operations as yield points); random byte schedules (shrinkable), PCT priorities, and every schedule within a deviation bound on small bases; real-thread stress 2..16 workers." + EXPL,
+         TRUST + "the hooks deliver the events they claim (add-only, /repo commits in hooks.source_commits); schedules owned at critical-section/trait-call granularity, not instruction level.", "§6, §7 C03"),
+ "C04": ("schedule-owning property-based testing with an invariant-over-history oracle (scheduler state: deadlock, worker crash, premature completion, step bound)",
+         "Thread counts 1..8 (construction and builder, smaller/equal/larger), cutoff firing at generated poll indices, random/PCT/systematic schedules; the scheduler state decides: deadlock = no runnable worker while one is parked, worker exit by panic, 'complete' while nodes are open or in progress, step bound." + EXPL,
+         TRUST + "liveness is bounded: 'returns within the step bound under every explored schedule' plus structural deadlock detection.", "§6, §7 C04"),
+ "C05": ("fault-point enumeration by generated-input search: every cutoff poll index of each generated sequential case; (poll index x schedule) for the parallel solver; bounds/solution oracle from h*",
+         "Sequential: for each generated (instance, configuration) the cutoff fires at EVERY poll index 1..K+1 (complete per case); parallel: generated poll index x owned schedule (random/PCT/systematic). Oracle: lb <= optimum <= ub, solution replays to lb, is_exact only with the optimum." + EXPL,
+         TRUST + "cooperative scheduler for the parallel part.", "§7 C05"),
+ "C06": ("property-based differential testing of directly compiled relaxed diagrams against h* of generated sub-problems, incl. compilation histories on the same object",
+         "Relaxed compilations of generated reachable sub-problems (width, incumbent below/at/above the sub-optimum, LEL/FRONTIER/Pooled, rough bounds, dominance, 0-3 prior compilations incl. interrupted ones) with fresh cache/dominance store; bound validity, truthful exactness, replay of the best exact solution." + EXPL,
+         TRUST + "'in isolation' = fresh cache and dominance store.", "§7 C06"),
+ "C07": ("property-based differential testing of restricted and exact-mode compilations against h* with solution replay",
+         "Same case space as C06 in Restricted and Exact mode: value <= sub-optimum, best solution replays to the value, exact claims are true, exact mode yields the sub-optimum for every width." + EXPL,
+         TRUST, "§7 C07"),
+ "C08": ("property-based testing of cut-sets with a four-clause validity predicate; coverage decided by brute-force enumeration of all completions",
+         "For every inexact relaxed diagram of the C06 space the cut-set is drained: each node replays exactly (i), is strictly deeper than the root (ii), carries a valid bound (iii), and the cut-set covers every completion beating incumbent and best exact value (iv, by enumeration of all completions; modulo dominance when a rule is active)." + EXPL,
+         TRUST + "coverage enumeration limited to sub-problems with <= 20000 completions (others labelled).", "§7 C08, §11"),
+ "C09": ("differential property-based testing: caching vs non-caching solver vs h*, in-vivo reference model of the cache traffic, scheduled-parallel runs with yields at every threshold read/write",
+         "Re-convergent instances x configurations incl. a tie-shuffling fringe (processing orders the shipped fringes never produce); SimpleCache run vs EmptyCache run vs h*; recorded cache traffic vs reference map; parallel caching solver under owned fine-grained schedules." + EXPL,
+         TRUST, "§7 C09"),
+ "C10": ("model-based testing of SimpleDominanceChecker against a reference Pareto front (bounded-exhaustive + random query sequences) and differential solver runs with admissible rules",
+         "Checker level: generated Dominance impls, exhaustive short and random long query/clear sequences vs a reference antichain (verdict, threshold soundness, comparator); solver level: admissible rules (DESIGN §11) never change the optimum, sequential and scheduled-parallel." + EXPL,
+         TRUST + "solver-level rules admissible in the strong sense documented in DESIGN §11.", "§7 C10, §11"),
+ "C11": ("model-based testing of both fringes against a reference multiset priority queue (bounded-exhaustive + random push/pop/clear sequences) and differential solver runs on depth-free models",
+         "Every pop must return an entry of the reference that is maximal for (ub, value, state rank); len/is_empty after every step; unique path tags detect lost / invented / wrongly coalesced entries; NoDup coalesces only on equal (state, depth); solver level: NoDup vs Simple vs h* on depth-free states." + EXPL,
+         TRUST, "§7 C11"),
+ "C12": ("runtime verification over generated runs: recording wrappers around Problem/Relaxation + online protocol monitor per compilation",
+         "All calls into user code during solver runs (sequential and real-thread parallel) and direct Exact/Restricted/Relaxed compilations of the three diagram types are checked by a monitor against the model (dst = transition(src,d), d in domain, cost = arc cost, merged = last merge output over >= 2 layer states containing dst, variable/layer/depth coherence)." + EXPL,
+         TRUST + "monitor recomputes transitions with the deterministic model.", "§7 C12"),
+ "C13": ("runtime verification over generated runs (per-layer expansion count <= width) + property-based testing of the width combinators",
+         "For all-impacted models the monitor counts the states expanded per layer in every restricted / relaxed compilation (root layer and first layer below exempt for relaxed); generated nested Times/DivBy combinators never yield 0." + EXPL,
+         TRUST, "§7 C13"),
+ "C14": ("metamorphic / differential property-based testing of warm starts with witness solutions from the oracle",
+         "set_primal with a genuinely feasible solution of value optimum-d (d = 0..6) then maximize: exact, value = optimum, feasible reported solution (sequential; parallel under owned schedules); set_primal twice keeps the first unless strictly greater." + EXPL,
+         TRUST, "§7 C14"),
+ "C15": ("differential property-based testing: Pooled vs Mdd<LEL> vs Mdd<FRONTIER> vs independent optimum on models with irrelevant (variable, state) pairs",
+         "Depth-free table models with generated irrelevance patterns, set packing (dynamic order), common subsequence with jumps; widths 1..3, cache on/off, sequential and 1-3 real threads; all three diagrams exact and equal to the oracle, termination within the proven poll budget, default-completed solution replays." + EXPL,
+         TRUST + "models declare irrelevance with a neutral default decision.", "§7 C15"),
+ "C17": ("algebraic-law property-based testing of Solver::gap() on a stub solver: exhaustive grid + random pairs + completed solver runs",
+         "Five stated predicates checked on every pair of a grid (infinities, 0, small, huge, powers of two and neighbours, both signs), on random pairs, and after completed runs (optimum zero / negative / infeasible)." + EXPL,
+         "Trusted: f32 comparison semantics; pairs ordered lb <= ub.", "§7 C17"),
+ "C18": ("model-based testing of SimpleCache/EmptyCache against a reference map (bounded-exhaustive + random op sequences, all keys read after every step); concurrent phases with order-independent oracles (linearizability necessary conditions)",
+         "Sequential spec checked exhaustively for short sequences and randomly for long ones; concurrent update-only phases (2..16 real threads, barrier): no lost update, reads written by somebody, monotone, >= own update; dominance store hammered concurrently then probed against the Pareto front of everything presented." + EXPL,
+         "Trusted: reference models; concurrent schedules are the OS's (stated weakness, DESIGN §10).", "§7 C18"),
+ "C19": ("metamorphic property-based testing: the sequential solver cut at consecutive poll indices (all k in 1..K+1 per generated case)",
+         "lb non-decreasing, ub non-increasing in the cut-off point, exact with lb = ub = optimum after the last poll; the relation is applied only after checking on the recorded pop logs that the run cut at k+1 extends the run cut at k." + EXPL,
+         TRUST + "determinism of the sequential solver is verified per case, not assumed.", "§7 C19"),
+ "C20": ("property-based testing of as_graphviz over compiled diagrams x all 64 configurations with a grammar-based DOT parser and a faithfulness oracle from recorded callbacks",
+         "No panic; output parses with an independent DOT parser; ids declared once; edge end-points and cluster members declared or hidden by configuration; terminal iff a best value exists; edges match recorded transitions / relaxed arcs (decision, cost, end-points); node set matches created / non-deleted states." + EXPL,
+         TRUST + "node faithfulness decided only for depth-embedding states.", "§7 C20"),
 }
-NOT_YET = {}
+NOT_YET = {"C16": "check under construction (Hypothesis sub-process differential of the 12 example binaries, DESIGN §7 C16); nothing is claimed for it yet"}
 def main():
     props = [json.loads(l) for l in open('/verif/properties.jsonl')]
     checks = []
